@@ -164,6 +164,89 @@ fn check_terms(c: &TermCase, obs: &mut Obs) -> CheckResult {
     Ok(())
 }
 
+// ---- well-formed durations with huge magnitudes: the exact sum, or a rejection - never a wrapped value
+
+#[derive(Clone, Debug, Serialize, Deserialize)]
+struct BigTermCase {
+    terms: Vec<(bool, u64, usize)>, // negative?, magnitude, unit index
+}
+
+fn big_term_case(_t: Tier) -> impl Strategy<Value = BigTermCase> {
+    // magnitudes around the points where months leave i32, seconds leave i64 / chrono's range, and plain large
+    let mag = prop_oneof![
+        2 => (0u32..64, 0u64..4).prop_map(|(sh, d)| (1u64 << sh.min(63)).wrapping_add(d).wrapping_sub(2)),
+        2 => (0u64..2000).prop_map(|d| 178_956_970 - 1000 + d),           // years -> months near 2^31
+        2 => (0u64..2000).prop_map(|d| (1u64 << 31) - 1000 + d),          // months near 2^31
+        1 => (0u64..2000).prop_map(|d| 9_223_372_036_854_775 - 1000 + d), // seconds near chrono's limit (ms-based)
+        1 => (0u64..2000).prop_map(|d| 15_250_284_452_471 - 1000 + d),    // weeks near it
+        1 => any::<u64>(),
+        1 => 0u64..1000,
+    ];
+    proptest::collection::vec((any::<bool>(), mag, 0usize..10), 1..=3).prop_map(|terms| BigTermCase { terms })
+}
+
+fn check_big_terms(c: &BigTermCase, obs: &mut Obs) -> CheckResult {
+    let mut s = String::new();
+    let mut months: i128 = 0;
+    let mut ns: i128 = 0;
+    for (neg, n, u) in &c.terms {
+        let v = if *neg { -(*n as i128) } else { *n as i128 };
+        if *neg {
+            s.push('-');
+        }
+        s.push_str(&n.to_string());
+        s.push_str(UNITS[*u]);
+        match UNITS[*u] {
+            "ns" => ns += v,
+            "us" => ns += v * 1_000,
+            "ms" => ns += v * 1_000_000,
+            "s" => ns += v * 1_000_000_000,
+            "m" => ns += v * 60_000_000_000,
+            "h" => ns += v * 3_600_000_000_000,
+            "d" => ns += v * 86_400_000_000_000,
+            "w" => ns += v * 604_800_000_000_000,
+            "mo" => months += v,
+            _ => months += 12 * v,
+        }
+    }
+    let r = std::panic::catch_unwind(|| TimeDelta::parse(&s));
+    let r = match r {
+        Ok(r) => r,
+        Err(_) => return fail("bigterms:panic", format!("TimeDelta::parse({:?}) panicked", s)),
+    };
+    let secs = ns.div_euclid(1_000_000_000);
+    // representable: months fit an i32 (its minimum is the NaT marker) and chrono can hold the rest
+    let inner_exact = if secs.abs() <= i64::MAX as i128 { chrono::Duration::try_seconds(secs as i64).and_then(|d| d.checked_add(&chrono::Duration::nanoseconds(ns.rem_euclid(1_000_000_000) as i64))) } else { None };
+    let representable = months > i32::MIN as i128 && months <= i32::MAX as i128 && inner_exact.is_some();
+    match r {
+        Err(_) => {
+            obs.class("rejected");
+            if representable && c.terms.iter().all(|t| t.1 < 1_000_000) {
+                return fail("bigterms:rejected-small", format!("{:?} rejected although every term is small", s));
+            }
+        },
+        Ok(td) => {
+            if td.is_nat() {
+                // months == i32::MIN is the NaT marker itself: the one sum whose exact representation IS
+                // NaT (accepted); any other text silently turning into NaT is a wrong value
+                if months == i32::MIN as i128 {
+                    obs.class("sum_is_the_nat_marker");
+                    return Ok(());
+                }
+                return fail("bigterms:nat", format!("{:?} parsed to NaT", s));
+            }
+            let want_inner = if representable { inner_exact } else { None };
+            if td.months as i128 != months || Some(td.inner) != want_inner {
+                return fail("bigterms:wrong-value", format!("{:?} parsed to months {} + {:?}, the terms sum to months {} + {} ns ({})", s, td.months, td.inner, months, ns, if representable { "representable" } else { "not representable: must be rejected" }));
+            }
+            obs.class("accepted_exact");
+        },
+    }
+    obs.set_nontrivial(!representable || c.terms.iter().any(|t| t.1 > u32::MAX as u64));
+    obs.class_if(!representable, "sum_not_representable");
+    Ok(())
+}
+
 // ---- format / parse round trip
 
 #[derive(Clone, Debug, Serialize, Deserialize)]
@@ -286,6 +369,7 @@ fn main() {
     .raw(|bytes| ("parsers_total".to_string(), serde_json::json!({"s": tvh::fuzzable::decode_parse(bytes)})));
     p.add(sub("parsers_total", 60000, 3000000, str_case, check_total));
     p.add(sub("wellformed_term_sum", 30000, 1000000, term_case, check_terms));
+    p.add(sub("wellformed_huge_terms", 20000, 600000, big_term_case, check_big_terms));
     p.add(sub("datetime_roundtrip", 30000, 1000000, rt_case, check_rt));
     p.add(sub("time_roundtrip", 10000, 300000, rt_case, check_time_rt));
     main_for(p);
